@@ -4,7 +4,7 @@ from __future__ import annotations
 import ast as _ast
 import math
 
-from ..common import all_conds, conds_at, mro_methods, nshow, outer_field, paths, unclamped
+from ..common import all_conds, conds_at, mro_methods, nshow, outer_field, paths, saturating_move, unclamped
 from ..expr import C, SELF, canon, first_diff, norm, show, strip_epochs, walk
 from ..model import AnalysisError
 from ..own import BINF, TABLE, is_bucket
@@ -252,7 +252,7 @@ def check(prog, rep, tier):
             if p.exit[0] != "return":
                 continue
             ev = counter_events(p, T)
-            if not ev or unclamped(canon(ev[0].value), (-2**63, 2**63 - 1)) != canon(("bin", sign, ("f", SELF, T, 0), num)):
+            if not ev or not saturating_move(p, ev[0], ("bin", sign, ("f", SELF, T, 0), num), (-2**63, 2**63 - 1)):
                 rep.bad("C14.count-min", f"CountMinSketch.{fn}", "total", f"the total does not move by {sign}num_els", f.where())
                 ok = False
                 break
@@ -267,7 +267,7 @@ def check(prog, rep, tier):
         if not ev and any(c.truth and strip_epochs(c.atom) in (("cmp", "==", ("f", ("p", "second"), T, 0), C(0)), ("cmp", "==", C(0), ("f", ("p", "second"), T, 0)))
                           for c in p.conds):
             continue  # the operand's total is known to be 0 on this path: nothing to add
-        if not ev or unclamped(canon(ev[0].value), (-2**63, 2**63 - 1)) != canon(("bin", "+", ("f", SELF, T, 0), ("f", ("p", "second"), T, 0))):
+        if not ev or not saturating_move(p, ev[0], ("bin", "+", ("f", SELF, T, 0), ("f", ("p", "second"), T, 0)), (-2**63, 2**63 - 1)):
             rep.bad("C14.count-min", "CountMinSketch.join", "total", "join does not add the operand's total", f.where())
             ok = False
             break
@@ -367,7 +367,19 @@ def check(prog, rep, tier):
                     seenl = True
                     cnt = strip_epochs(bins[0].args[1])
                     un = [delta_of(e, "_CountingCuckooFilter__unique_elements") for e in counter_events(p, "_CountingCuckooFilter__unique_elements")]
-                    if adds != [cnt] or un != [C(1)]:
+                    per_bin = adds == [cnt] and un == [C(1)]
+                    # ... or per bucket, over the list of bins just built for it: += sum(b.count for b in bucket), unique += len(bucket)
+                    per_bucket = False
+                    if len(adds) == 1 and len(un) == 1 and adds[0] is not None and un[0] is not None:
+                        a_, u_ = strip_epochs(adds[0]), strip_epochs(un[0])
+                        if u_[0] == "call" and u_[1] == ("g", "len") and len(u_[2]) == 1:
+                            L_ = u_[2][0]
+                            built = L_[0] == "comp" and L_[1] == "list" and strip_epochs(L_[2])[:3] == strip_epochs(bins[0].obj)[:3]
+                            if built and a_[0] == "call" and a_[1] == ("g", "sum") and len(a_[2]) == 1 and a_[2][0][0] == "comp" and len(a_[2][0][3]) == 1 \
+                                    and not a_[2][0][3][0][3] and strip_epochs(a_[2][0][3][0][2]) == L_:
+                                it_ = ("it", a_[2][0][3][0][1], a_[2][0][3][0][2])
+                                per_bucket = strip_epochs(a_[2][0][2]) in (("f", strip_epochs(it_), "count", 0), ("sub", ("f", strip_epochs(it_), BINF, 0), C(1), 0))
+                    if not per_bin and not per_bucket:
                         okl = False
                         break
             else:
@@ -485,6 +497,10 @@ def check(prog, rep, tier):
         flt = g_[3][0]
         # the filter keeps exactly the non-zero cells (unsigned): x > 0, x != 0, 0 < x, or x's truthiness
         okn = flt in (("cmp", ">", el, C(0)), ("cmp", "!=", el, C(0)), ("cmp", "<", C(0), el), ("cmp", ">=", el, C(1)), el)
+    if not okn and len(rv) == 1:
+        # ... or all cells minus the zero ones: len(cells) - cells.count(0)
+        F_ = ("f", SELF, "_bloom", 0)
+        okn = canon(rv[0]) == canon(("bin", "-", ("call", ("g", "len"), (F_,), ()), ("call", ("m", F_, "count"), (C(0),), ())))
     if okn:
         rep.ok("C14.bloom-statistics", "CountingBloomFilter: X = number of non-zero cells")
     else:
